@@ -247,7 +247,7 @@ CLAIMED = {
         'pointer and fundamental types, unknown interface names (two unresolved interface types make the writer\'s sort raise).',
    ref='DESIGN.md §4 C12'),
  'C15': dict(
-   technique='Coq proof of the writer/reader vocabulary contract on lists regenerated from girwriter.py and girparser.c, and of the attribute round trips (C01 writer model and C07 type writer model composed with models of the compiler's reader) + translation validation through the real scanner, g-ir-compiler, g_typelib_validate and repository API',
+   technique='Coq proof of the writer/reader vocabulary contract on lists regenerated from girwriter.py and girparser.c, and of the attribute round trips (C01 writer model and C07 type writer model composed with models of the reader of the compiler) + translation validation through the real scanner, g-ir-compiler, g_typelib_validate and repository API',
    text='Theorems (Coq, axiom-free): every element name the GIR writer can emit (extracted from the syntax tree of giscanner/girwriter.py, '
         'fail-closed) is among the names girepository/girparser.c tests element_name against or starts with "c:" '
         '(C15_vocabulary_contract, finite); for EVERY parameter slot of the C01 model, what the writer emits is read back by the '
